@@ -132,7 +132,10 @@ def impl_np(op, a):
     from geostructures.coordinates import Coordinate
     if op.startswith('mgrs'):
         lon, lat = float(Fraction(a[0])), float(Fraction(a[1]))
-        c = Coordinate(lon, lat)
+        # a height / measure on the coordinate must not reach the grid reference (seeded change C19-u1 spilled
+        # `to_float()` — which carries Z and M — into the MGRS call, where they became `inDegrees` and the precision)
+        zm = {t[0]: float(t[2:]) for t in a[2:] if t[:2] in ('z=', 'm=')}
+        c = Coordinate(lon, lat, **zm)
         if op == 'mgrs-rt':          # our writer, our reader
             c2 = Coordinate.from_mgrs(c.to_mgrs())
         elif op == 'mgrs-to':        # our writer, the library's reader
@@ -570,7 +573,8 @@ def check(run):
         lat = rng.choice([rng.uniform(-80, 84), rng.uniform(-80, 84), rng.uniform(84, 90), rng.uniform(-90, -80),
                           rng.uniform(-80.01, -79.99), rng.uniform(83.99, 84.01)])
         op = rng.choice(['mgrs-rt', 'mgrs-to', 'mgrs-from', 'mgrs-from'])
-        lines.append(f'np.{op} {rat(lon)} {rat(lat)}' + (' sp' if op == 'mgrs-from' and rng.random() < 0.5 else ''))
+        zm = rng.choice(['', '', ' z=0.0', ' z=12.5', ' m=3.0', ' z=0.0 m=0.0', ' z=-4.0 m=7.0']) if op != 'mgrs-from' else ''
+        lines.append(f'np.{op} {rat(lon)} {rat(lat)}' + (' sp' if op == 'mgrs-from' and rng.random() < 0.5 else '') + zm)
     run.run_cases('np-mgrs', lines, impl, spec, model=False,
                   tag=lambda ln, a: [ln.split()[0] + ':' + ('UPS' if not (-80 <= Fraction(ln.split()[2]) < 84) else 'UTM')])
     lines = []
